@@ -7,6 +7,7 @@ pub mod c03;
 pub mod c04;
 pub mod c06;
 pub mod c12;
+pub mod c13;
 pub mod c14;
 pub mod c19;
 
@@ -17,6 +18,7 @@ pub fn run(id: &str, thorough: bool) -> Option<Outcome> {
         "C04" => Some(c04::run(thorough)),
         "C06" => Some(c06::run(thorough)),
         "C12" => Some(c12::run(thorough)),
+        "C13" => Some(c13::run(thorough)),
         "C14" => Some(c14::run(thorough)),
         "C19" => Some(c19::run(thorough)),
         _ => None,
@@ -30,6 +32,7 @@ pub fn replay(id: &str, ex: &Value) -> Option<Report> {
         "C04" => Some(c04::replay(ex)),
         "C06" => Some(c06::replay(ex)),
         "C12" => Some(c12::replay(ex)),
+        "C13" => Some(c13::replay(ex)),
         "C14" => Some(c14::replay(ex)),
         "C19" => Some(c19::replay(ex)),
         _ => None,
